@@ -507,7 +507,7 @@ PLANS = {
     "C13": [MIRI, M(["general", "blocking", "deathrace"], 9, 90), M(["reentrant"], 2, 10, seed_off=21), S(["traffic", "timeouts", "kill", "faults", "lifecycle"], 12000, 100000, mode="diff"), S(["timeouts", "kill"], 9000, 60000, build="none", seed_off=1000)],
     "C14": [M(["mutualask"], 4, 40), S(["deadlock"], 48000, 400000, perts=(2, 4)), S(["deadlock"], 12000, 100000, mode="erased", seed_off=300)],
     "C15": [MIRI, M(["dlrace"], 6, 40, seed_off=31), S(["deadlock"], 48000, 400000, perts=(2, 4), seed_off=500), S(["deadlock"], 12000, 100000, mode="erased", seed_off=800), S(["traffic", "faults"], 9000, 60000)],
-    "C16": [M(["blocking", "notime"], 7, 40), S(["traffic", "refs", "timeouts", "kill", "lifecycle", "backpressure", "idle", "faults"], 7500, 60000, mode="diff"), S(["refs", "traffic", "kill"], 6000, 40000, mode="diff", build="none", seed_off=1000)],
+    "C16": [M(["blocking", "notime"], 7, 40), S(["traffic", "refs", "timeouts", "kill", "lifecycle", "backpressure", "idle", "faults"], 7500, 60000, mode="diff"), S(["deadlock"], 6000, 40000, mode="diff", seed_off=700), S(["refs", "traffic", "kill"], 6000, 40000, mode="diff", build="none", seed_off=1000)],
     "C20": [MIRI, M(["readers"], 6, 60), M(["slow"], 2, 20, seed_off=5), M(["metricsrace", "abort"], 6, 40, seed_off=6), {"engine": "gen", "actors": (16, 120), "rounds": (1, 2), "skip_negatives": True}, S(["metrics", "traffic", "kill", "faults"], 15000, 120000)],
     "C17": [M(["blocking"], 8, 90), M(["general"], 6, 60, seed_off=77), M(["hogged", "dropsend"], 8, 50, seed_off=13)],
     "C19": [M(["blocking", "general"], 6, 40), {"engine": "gen", "actors": (60, 400), "rounds": (1, 3)}, S(["traffic", "faults"], 9000, 60000)],
